@@ -362,11 +362,12 @@ def havoc_for_call(ex, st, pre, items, ctor_ghost=()):
                 raise OutOfSubset('modifies item of type %r' % (pt,))
             continue
         if kind == 'region':
-            lvl = ex.harr(st, 'F:rbql_engine.RBQLOutputWriter.level', ArrS(INT, INT))
+            root = ex._family_root(ex._obj_class(v.pt)) or 'rbql_engine.RBQLOutputWriter'
+            lvl = ex.harr(st, 'F:%s.level' % root, ArrS(INT, INT))
             r = BVar('r', INT)
-            # writer-family object fields
+            # writer-family object fields (of the family of v: the Python and the JavaScript writers are separate families)
             for cname, ci in ex.reg.classes.items():
-                if ex._family(cname) != 'writer':
+                if ex._family(cname) != 'writer' or ex._family_root(cname) != root:
                     continue
                 for f, fpt in list(ci.fields.items()) + list(ci.ghost.items()):
                     if f in IMMUTABLE_GHOST:
@@ -586,6 +587,16 @@ def list_method(ex, base, attr, args, kwargs, st, n):
     if attr == 'remove':
         # remove first occurrence; only supported for python-constant lists (statement groups)
         raise OutOfSubset('list.remove at line %d' % n.lineno)
+    if attr == 'find' and len(args) == 1 and ept.kind in ('int', 'str'):
+        # JavaScript Array.indexOf(x) (the front end renders indexOf as find): index of the first element equal to x, -1 when there is none
+        xe = ex.coerce(args[0], ept)
+        r = fresh('idxof', INT)
+        j = smt.BVar('j', INT)
+        st.pc.append(Ite(smt.Contains(seq, Unit(xe.t)),
+                         And(Ge(r, IntC(0)), Lt(r, Len(seq)), Eq(Nth(seq, r), xe.t),
+                             smt.ForAll([j], Implies(And(Ge(j, IntC(0)), Lt(j, r)), Not(Eq(Nth(seq, j), xe.t))))),
+                         Eq(r, IntC(-1))))
+        return SV(TInt, r)
     if attr == 'count' or attr == 'index':
         raise OutOfSubset('list.%s' % attr)
     raise OutOfSubset('list method %s at line %d' % (attr, n.lineno))
@@ -639,6 +650,28 @@ def int_to_str(t):
 
 
 def builtin(ex, name, args, kwargs, st, n):
+    if name in ('__js_math_min', '__js_math_max'):
+        name = name[len('__js_math_'):]
+    if name == '__js_str':
+        v = args[0]
+        if v.pt.kind == 'str':
+            return v
+        if v.pt.kind == 'opt':
+            v = ex.unwrap_opt(st, v, n)
+        return SV(TStr, to_str(ex, st, v, n))
+    if name == '__js_map_get':
+        # JavaScript Map.get(k): `undefined` for a missing key, which is distinct from every stored value (also from a stored null):
+        # an Opt of the value type, never collapsed into the value's own None
+        base = args[0]
+        if base.pt.kind not in ('dict', 'ddict'):
+            raise OutOfSubset('Map.get on %r at line %d' % (base.pt, n.lineno))
+        present, v = ex.dict_lookup(st, base, args[1])
+        vpt = base.pt.args[1]
+        opt = PT('opt', vpt)
+        if vpt.is_ref():
+            return ex.wf(st, SV(opt, Ite(present, v.t, IntC(0))))
+        mname, kname, m, korder, dopt = ex._dict_arrs(st, base)
+        return SV(opt, Select(Select(m, base.t), ex.coerce(args[1], base.pt.args[0]).t))     # the stored entry is already that Opt value
     if name == 'len':
         v = args[0]
         k = v.pt.kind
